@@ -47,6 +47,13 @@ Theorem C18_others_untouched : forall fs ws name,
   (forall c, ~ In (name, c) ws) -> fs_lookup (apply_writes fs ws) name = fs_lookup fs name.
 Proof. exact other_files_untouched. Qed.
 
+(* a written name holds written content whatever the folder held before (earlier revision, leftovers) *)
+Theorem C18_written_whatever_was_there : forall fs ws name c0,
+  In (name, c0) ws -> exists c, In (name, c) ws /\ fs_lookup (apply_writes fs ws) name = Some c.
+Proof. exact written_files_hold_written_content. Qed.
+Theorem C18_written_independent_of_earlier_content : forall fs fs' ws name c0,
+  In (name, c0) ws -> fs_lookup (apply_writes fs ws) name = fs_lookup (apply_writes fs' ws) name.
+Proof. exact written_files_independent_of_earlier_content. Qed.
 Example C18_example :
   file_name 12 [".";".";"/";x00]%byte = ["1";"2";".";".";".";"_";"_"]%byte.
 Proof. vm_compute. reflexivity. Qed.
@@ -58,3 +65,5 @@ Print Assumptions C18_writes_exact.
 Print Assumptions C18_extract_wellformed.
 Print Assumptions C18_twice_same.
 Print Assumptions C18_others_untouched.
+Print Assumptions C18_written_whatever_was_there.
+Print Assumptions C18_written_independent_of_earlier_content.
